@@ -195,7 +195,12 @@ impl FmtAttribute {
             Some(parsing::Argument::Identifier(name)) => (self.args.len() == 1)
                 .then(|| self.args.first())
                 .flatten()
-                .filter(|a| a.alias.as_ref().map(|a| a.0 == name).unwrap_or_default())
+                .filter(|a| {
+                    a.alias
+                        .as_ref()
+                        .map(|a| a.0.unraw() == name)
+                        .unwrap_or_default()
+                })
                 .map(|a| a.expr.clone()),
         }?;
 
@@ -248,7 +253,7 @@ impl FmtAttribute {
                 Parameter::Named(name) => self
                     .args
                     .iter()
-                    .find_map(|a| (a.alias()? == &name).then_some(&a.expr))
+                    .find_map(|a| (a.alias()?.unraw() == name).then_some(&a.expr))
                     .map_or(Some(name), |expr| {
                         expr.ident().map(|i| i.unraw().to_string())
                     })?,
@@ -301,7 +306,7 @@ impl FmtAttribute {
                 Parameter::Named(name) => self
                     .args
                     .iter()
-                    .find_map(|a| (a.alias()? == name).then_some(&a.expr))
+                    .find_map(|a| (a.alias()?.unraw() == *name).then_some(&a.expr))
                     .map_or(Some(name.clone()), |expr| {
                         expr.ident().map(ToString::to_string)
                     }),
